@@ -193,6 +193,10 @@ def run(ctx):
     ctx.check(not probs, 'C07.3', 'load:highest-version-wins', f_load.loc(),
               'a description replaces the registered one iff none is registered or the registered one is older',
               'registration reached=%s in scenario %s' % ((probs[0][2], probs[0][1]) if probs else ('', '')))
+    lpaths2 = paths_of(repo, f_load, unroll=2, may_raise=None)
+    early = [p for p in lpaths2 if any(e.kind == 'loop-break' for e in p.events) or any(e.kind == 'return' and e.loops for e in p.events)]
+    ctx.check(not early, 'C07.3', 'load:every-interface-considered', f_load.loc(), 'the loop over a file\'s interfaces is never left early: each interface takes part in the version contest on its own',
+              'load() can stop in the middle of a file (%s): later interfaces of that file are never registered, so the outcome depends on the loading order' % (early[0].describe()[:160] if early else ''))
     nst = 0
     for p in lpaths:
         for e in p.events:
